@@ -60,6 +60,34 @@ CHECKS = {
             "from_bytes, from_str (and Language::try_from); accept/reject must equal the production, and as_str, Display, == &str, "
             "<&str>::from and is_empty must expose the expected case-folded text; 'und' handling through default(), clear(), try_from(None).",
             "DESIGN.md section 5, C15", TRUST),
+    "C06": ("reference-model monitor (dictionary built from likelySubtags.json, acceptable-answer sets) + Miri on the unsafe lookups",
+            "All 8218 CLDR entries are looked up (exhaustive in both tiers) and must give exactly the CLDR value through likelysubtags::maximize and "
+            "LanguageIdentifier::maximize. Every (language, script, region) of the CLDR subtag universe plus unknown representatives (thorough: all 3.2e8; "
+            "quick: all CLDR-related pairs per language + 1/64 stratified grid sample) must give an answer inside the acceptable set of the statement's "
+            "lookup cascade (the UTS #35 fallbacks are accepted only where the statement grants latitude). Table keys are also run under Miri "
+            "(six unsafe lookups).",
+            "DESIGN.md section 5, C06", TRUST + " The JSON data files are ground truth by the property's own wording."),
+    "C07": ("algebraic-law monitor on maximize over the triple universe (no reference data)",
+            "For every triple as in C06: given subtags unchanged, all three present after a change, bool <=> changed, None/false => unchanged, "
+            "idempotent; with variant lists and extension sets attached on a sample (variants and every extension untouched, Locale.id.maximize()).",
+            "DESIGN.md section 5, C07", TRUST),
+    "C08": ("algebraic-law monitor on minimize + comparison with the reference minimisation of the dictionary oracle",
+            "For every triple as in C06: the result maximizes to the same triple, uses no foreign subtag, has no more script/region subtags, is the "
+            "first of {l, l-r, l-s} that maximizes back, minimize(maximize(x)) == minimize(x), idempotent, false => unchanged, variants/extensions "
+            "untouched; additionally equal to an independent reference minimisation.",
+            "DESIGN.md section 5, C08", TRUST),
+    "C14": ("reference-model monitor (sets derived from the CLDR layout files) in two build configurations of the same harness",
+            "The harness is built with and without the library's likelysubtags feature. In both builds every identifier of the workload (710 CLDR "
+            "layout locales exhaustively; triples as in C06; x 3 variant lists) is judged on exactly the clauses of the statement; answers the statement "
+            "leaves open are counted unconstrained, not judged.",
+            "DESIGN.md section 5, C14", TRUST + " The layout JSON files are ground truth by the property's own wording."),
+    "C18": ("invariant walker over the compiled statics (cfg hook) + Miri on every stored integer + re-run of the repository's generators",
+            "All 8219 likely-subtags rows and 50 direction rows: strictly increasing under the exact key the binary search uses, every stored integer "
+            "decodes to a well-formed correctly cased subtag with zero padding only at the top and reads back through the unchecked constructor "
+            "(natively and under Miri), the multiset of rows equals an independent re-derivation from likelySubtags.json, direction tables equal the "
+            "sets derivable from the layout files, CLDR_VERSION equals the data's; both generators are re-run and compared token-wise with the "
+            "checked-in files.",
+            "DESIGN.md section 5, C18", TRUST + " Hook: cfg(unic_locale_verif) read-only re-export."),
 }
 
 REASON_PENDING = "check not built yet in this round; design in DESIGN.md section 5"
